@@ -256,6 +256,63 @@ def precalc_zone(P):
     return h
 
 
+# ------------------------------------------------------------------------------------------------ the zone as served (cached)
+def _served_params(tier, seed):
+    """[zone id, index of a stored transition]: windows around stored transitions of provider zones, before and after 1970"""
+    from pyoda_time.time_zones._cached_date_time_zone import _CachedDateTimeZone
+    ids = sorted(DateTimeZoneProviders.tzdb.ids)
+    out = []
+    n = 6 if tier == "quick" else 80
+    i = 0
+    while len(out) < n and i < 4 * n:
+        zid = ids[(seed * 211 + i * 59) % len(ids)]
+        i += 1
+        zone = DateTimeZoneProviders.tzdb[zid]
+        z = zone._time_zone if isinstance(zone, _CachedDateTimeZone) else zone
+        if not isinstance(z, _PrecalculatedDateTimeZone):
+            continue
+        periods = z._PrecalculatedDateTimeZone__periods
+        if len(periods) < 3:
+            continue
+        # alternate between an early (pre-1970, negative day numbers) and a late stored transition
+        ks = [k for k in range(1, len(periods)) if (periods[k]._raw_start._days_since_epoch < 0) == (len(out) % 2 == 0)]
+        if not ks:
+            continue
+        out.append([zid, ks[(seed * 7 + i * 3) % len(ks)]])
+    return out
+
+
+@lemma({"d": int, "n": int}, params=_served_params, budget=200, thorough_budget=300, per_path=40,
+       bounds="a zone as the provider serves it (fresh _CachedDateTimeZone around the decoded zone) x EVERY instant within 45 days either side "
+              "of a stored transition (quick: 6 seeded (zone, transition) pairs alternating between pre-1970 and later ones; thorough: 80): the "
+              "interval returned contains the instant and is the one the uncached zone returns")
+def served_zone_window(P):
+    from pyoda_time.time_zones._cached_date_time_zone import _CachedDateTimeZone
+    zid, k = P
+    zone = DateTimeZoneProviders.tzdb[zid]
+    inner = zone._time_zone
+    periods = inner._PrecalculatedDateTimeZone__periods
+    T = periods[k]._raw_start
+    lo_d, hi_d = T._days_since_epoch - 45, T._days_since_epoch + 45
+    near = [p for p in periods if (not p.has_end or p._raw_end._days_since_epoch >= lo_d - 1) and (not p.has_start or p._raw_start._days_since_epoch <= hi_d + 1)]
+    tail_start = inner._PrecalculatedDateTimeZone__tail_zone_start
+
+    def h(d, n):
+        assume(max(IMIN, lo_d) <= d <= min(IMAX, hi_d))
+        assume(0 <= n < NPD)
+        t = d * NPD + n
+        if tail_start._is_valid:
+            assume(t < _tot(tail_start))
+        cz = _CachedDateTimeZone._for_zone(inner)                  # a fresh cache per path (what for_id builds)
+        iv = cz.get_zone_interval(Instant._ctor(days=d, nano_of_day=n))
+        want = None
+        for p in near:                                             # the stored period holding t (stored periods abut: precalc_zone)
+            if (not p.has_start or _tot(p._raw_start) <= t) and (not p.has_end or t < _tot(p._raw_end)):
+                want = p
+        return want is not None and iv is want
+    return h
+
+
 # ------------------------------------------------------------------------------------------------ alternating map (abstract recurrences)
 class _AbsRec:
     """Abstract recurrence obeying the recurrence contract (C04.recurrence_*): previous-or-same transition p <= instant < next n."""
